@@ -447,6 +447,24 @@ impl Default for Config {
     }
 }
 
+/// utime + stime of the child process in clock ticks (0 when unreadable).
+fn child_cpu_ticks(pid: libc::pid_t) -> u64 {
+    let stat = std::fs::read_to_string(format!("/proc/{pid}/stat")).unwrap_or_default();
+    let rest: Vec<&str> = stat.rsplit(')').next().unwrap_or("").split_whitespace().collect();
+    // after the command name: state(0) ppid(1) ... utime is field 14 overall = index 11 here, stime 12
+    let get = |i: usize| rest.get(i).and_then(|x| x.parse::<u64>().ok()).unwrap_or(0);
+    get(11) + get(12)
+}
+
+/// Whether some thread of the child is in state R (running or waiting for a processor).
+fn child_has_runnable_thread(pid: libc::pid_t) -> bool {
+    let Ok(rd) = std::fs::read_dir(format!("/proc/{pid}/task")) else { return false };
+    rd.flatten().any(|e| {
+        let stat = std::fs::read_to_string(e.path().join("stat")).unwrap_or_default();
+        stat.rsplit(')').next().unwrap_or("").split_whitespace().next() == Some("R")
+    })
+}
+
 /// Run one execution of `body` under the schedule `prefix` (choice 0 afterwards) in a forked child.
 /// Must be called from a single-threaded process.
 pub fn run_one(cfg: &Config, prefix: &[u8], body: &(dyn Fn() -> String + Sync)) -> ExecResult {
@@ -528,9 +546,21 @@ pub fn run_one(cfg: &Config, prefix: &[u8], body: &(dyn Fn() -> String + Sync)) 
     let start = Instant::now();
     let mut buf = Vec::new();
     let mut stuck = false;
+    // The deadline is extended (up to 8 x exec_timeout in total) while the child is merely slow:
+    // some thread of it is runnable or it consumed processor time since the last look. A child
+    // that is really stuck sleeps in a futex wait and accumulates no time.
+    let mut deadline = cfg.exec_timeout;
+    let mut last_ticks = child_cpu_ticks(pid);
     loop {
-        let remaining = cfg.exec_timeout.checked_sub(start.elapsed());
+        let remaining = deadline.checked_sub(start.elapsed());
         let Some(rem) = remaining else {
+            let ticks = child_cpu_ticks(pid);
+            let busy = ticks != last_ticks || child_has_runnable_thread(pid);
+            last_ticks = ticks;
+            if busy && deadline < cfg.exec_timeout * 8 {
+                deadline += cfg.exec_timeout;
+                continue;
+            }
             stuck = true;
             break;
         };
